@@ -127,6 +127,13 @@ func (s *Service) Handshake(ctx context.Context, stream p2p.Stream, peerMultiadd
 		return nil, fmt.Errorf("read synack message: %w", err)
 	}
 
+	if resp.Syn == nil {
+		return nil, ErrInvalidSyn
+	}
+	if resp.Ack == nil || resp.Ack.Address == nil {
+		return nil, ErrInvalidAck
+	}
+
 	observedUnderlay, err := ma.NewMultiaddrBytes(resp.Syn.ObservedUnderlay)
 	if err != nil {
 		return nil, ErrInvalidSyn
@@ -275,6 +282,9 @@ func (s *Service) Handle(ctx context.Context, stream p2p.Stream, remoteMultiaddr
 	mode, err := aurora.NewModelFromBytes(ack.NodeMode)
 	if err != nil {
 		return nil, aurora.ErrInvalidNodeMode
+	}
+	if ack.Address == nil {
+		return nil, ErrInvalidAck
 	}
 	overlay := boson.NewAddress(ack.Address.Overlay)
 
